@@ -46,8 +46,12 @@ impl Prop for C17 {
             "noop" => "XX".to_string(),
             _ => "x".to_string(),
         };
+        // optionally a tap-hold key is tapped right before the dance (concurrent-tap-hold yes): its
+        // decision leaves a short pause in which the first tap of the dance has to wait
+        let th_before = r.chance(200);
         case.cfg = format!(
-            "(defcfg rapid-event-delay {red})\n(defsrc a b)\n(deflayer l0 ({} {t} ({})) {})\n",
+            "(defcfg rapid-event-delay {red} concurrent-tap-hold {})\n(defsrc a b c)\n(deflayer l0 ({} {t} ({})) {} (tap-hold 0 100 v lctl))\n",
+            if th_before || r.chance(300) { "yes" } else { "no" },
             if eager { "tap-dance-eager" } else { "tap-dance" },
             acts.join(" "),
             if b_custom { "mlft" } else { "1" }
@@ -65,6 +69,14 @@ impl Prop for C17 {
         if held_other {
             ops.push(Op::Press(b));
             ops.push(Op::Gap(r.range(1, 8) as u32));
+        }
+        if th_before {
+            let c = oscode_of("c");
+            ops.push(Op::Gap(2));
+            ops.push(Op::Press(c));
+            ops.push(Op::Gap(r.range(2, 6) as u32));
+            ops.push(Op::Release(c));
+            ops.push(Op::Gap(r.range(1, 4) as u32));
         }
         for i in 0..n {
             if i > 0 {
@@ -264,7 +276,7 @@ impl Prop for C17 {
             }
         }
         let expected = all_expected.clone();
-        let got: Vec<String> = outs.iter().filter(|e| e.kind == OutKind::Press).map(|e| e.key.clone()).collect();
+        let got: Vec<String> = outs.iter().filter(|e| e.kind == OutKind::Press && e.key != "V").map(|e| e.key.clone()).collect();
         o.nontrivial = !got.is_empty();
         if boundary {
             o.count("boundary.tap-exactly-at-timeout", 1);
